@@ -346,6 +346,9 @@ def main(argv):
                         ck.violation("assembly-crash", "the real FSolver (in-process, assembly harness) failed (rc=%d): %s" % (r.returncode, (r.stdout[-200:] + r.stderr[-300:])),
                                      dict(files=run.files()))
                     else:
+                        pl_ = next((l.split() for l in proto if l.split()[0] == "problem"), None)
+                        if pl_ and len(pl_) >= 3:
+                            cuthill_tie.tie_bandwidth(ck, stats, mx, run, int(pl_[2]), "fsolver, in-process")
                         m = subprocess.run([mx, "assemble-m"], input="\n".join(proto) + "\n", stdout=subprocess.PIPE, text=True, timeout=600)
                         d = C03.compare_systems(open(dump).read().splitlines(), m.stdout.splitlines())
                         stats["systems_compared"] = stats.get("systems_compared", 0) + 1
